@@ -151,6 +151,6 @@ CHECKS.update({
          'on the FOR line the count is the value of the expression over the pre-scanned EQU symbols and the predefined constants, the name before FOR is the counter, earlier names are block labels. A concrete program is shown to unroll and to be assembled like its unrolling BY the theorem. FOR THE SIMPLEST BLOCKS THE RELATION IS CONSTRUCTED (C08_plain_block_unrolls_partial): every block without labels or counter whose body is unlabelled lines not starting with FOR or ROF is replaced in one pass by its body written out count times, with a counter (`c FOR count`) the counter is replaced by 1 .. count (C08_counter_block_unrolls_partial) each written-out line is the rendering of the abstractly substituted line of Render.unroll (C08_copy_renders_partial), the count the expander evaluates over the symbols in front of the block is the reference value of the count expression (C08_block_count_partial), and with a count <= 0 the block disappears whatever its body is (C08_zero_block_unrolls_partial: the comment idiom). '
          'That a pass and the pass driver always end is part of C05. NOT proved: that the relation unrolls holds between the rendering of every abstract program and the rendering of its Render.unroll (each instance is a finite derivation), and the composition with the reference meaning (kept as C08_full_statement). That statement is decided on every run by the correspondence: generated programs (blocks in sequence, nesting to 3, counts 0..6 from literals and EQUs, counters in inner/outer expressions, block labels) and their extracted unrollings '
          'assembled by gmars and by the extracted model, compared with each other and with the extracted meaning.'),
-   design_ref='DESIGN.md 0.2, 5 C08', note=NOTE_STD + ' The link between the abstract unroller and the token-level unrolling relation is covered by differential testing; the expander, the scanner and the pass driver are theorems.',
+   design_ref='DESIGN.md 0.2, 5 C08', note=NOTE_STD + ' One known finding is listed in KNOWN_FINDINGS.json (D34: the FOR expander drops a comment - an ;assert among them - that stands in a label section in front of the first block); the check prints KNOWN-FINDING for it and reports every other violation.' + ' The link between the abstract unroller and the token-level unrolling relation is covered by differential testing; the expander, the scanner and the pass driver are theorems.',
    technique='Coq theorems on the expander, scanner and pass-driver state machines (symbolic execution by induction over positioned machines, induction over the unrolling derivation) + per-run differential correspondence of program vs extracted unrolling vs meaning'),
 })
